@@ -154,6 +154,33 @@ func cmdCheck(args []string) int {
 			cts = append(cts, impl)
 		}
 	}
+	// invariants of package-level variables: postconditions of the package initialiser
+	for _, gi := range w.ct.GlobalInvs {
+		has := false
+		for _, p := range gi.Props {
+			if p == *prop {
+				has = true
+			}
+		}
+		if !has || !gi.InRepo || w.pkgByPath[gi.Pkg] == nil {
+			continue
+		}
+		key := gi.Pkg + ".init"
+		if *only != "" && !strings.Contains(key, *only) {
+			continue
+		}
+		var c *Contract
+		for _, x := range cts {
+			if x.Key == key {
+				c = x
+			}
+		}
+		if c == nil {
+			c = &Contract{Key: key, Kind: "func", Pkg: gi.Pkg, File: gi.Clause.File, Props: []string{*prop}, LoopInv: map[int][]Clause{}, InRepo: true}
+			cts = append(cts, c)
+		}
+		c.Ensures = append(c.Ensures, gi.Clause)
+	}
 	if pc.Sweep == "mechanism-frames" {
 		have := map[string]bool{}
 		for _, c := range cts {
